@@ -93,5 +93,5 @@ func (s metricSnapshot) putDiscards(storageType string) float64 {
 // NewBlobAccessFromConfiguration (storage type "cas").
 func indexDiscardCount() float64 {
 	m := gatherMetrics()
-	return m.indexDiscards("sim") + m.indexDiscards("cas")
+	return m.indexDiscards("sim") + m.indexDiscards("cas") + m.indexDiscards("ac")
 }
